@@ -279,3 +279,8 @@ def run(cx: Cx):
                              f"_get_cell_pos_as_tuple(int) returns {v!r}, not cells['pos'][id]", where=cx.where(gp, p.last.line))
     if not found:
         cx.inconclusive('R-AGREE', '_get_cell_pos_as_tuple', 'no int branch found', where=cx.where(gp), function=gp.qualname)
+    from .common import include_premises
+    include_premises(cx, ['C10'], 'ids reported by the neighbourhood queries are cell ids: same strides as the cell table',
+                     only=lambda o: 'id-strides' in o.key or 'id form' in o.message)
+
+
